@@ -1,3 +1,137 @@
-From Thunder Require Import Sql.Model.
-Theorem placeholder : True. Proof. exact I. Qed.
-Print Assumptions placeholder.
+(** C12 -- a shard-limited DB handle can never read or write outside its shard.
+
+    Model: Sql/Model.v ([run]: every method of sqlgen.DB as handle -> table -> context -> operation ->
+    (events sent to the database, outcome); [run_batched]: concurrent Query calls under
+    batch.WithBatching).  Definitions of confinement and all proofs: Sql/Confine.v.
+
+    [enforced_limits h] = the shard limit of the handle, and its dynamic limit when the
+    ShouldContinueOnError callback rejects.  [confined t l s]: a SELECT / COUNT constrains every limit
+    column to the limit's value in every disjunct of its WHERE, an INSERT / UPSERT carries the value in
+    every tuple, an UPDATE carries it in its WHERE or SET, a DELETE in its WHERE.  Hypotheses, all
+    boolean and evaluated on every generated case ([op_wfb], [batched_wfb]): column names are
+    identifiers, a pointer has one pointee, rows have one value per column. *)
+From Coq Require Import List String Bool ZArith.
+From Thunder Require Import Sql.Model Sql.Confine.
+Import ListNotations.
+Open Scope string_scope.
+
+(** Whatever a DB method of a limited handle sends to the database is confined to every enforced limit
+    -- for every handle, table, context (in / out of a transaction, batching on / off) and operation
+    (Query, QueryRow, FullScanQuery, Count, InsertRow(s), UpsertRow(s), UpdateRow, DeleteRow), whether the
+    call finally proceeds or is rejected half way (bulk methods). *)
+Theorem c12_every_statement_confined :
+  forall h t c o ev out l,
+    op_wfb h t o = true ->
+    run h t c o = (ev, out) -> In l (enforced_limits h) ->
+    Forall (event_confined t l) ev.
+Proof. exact c12_confined_b. Qed.
+Print Assumptions c12_every_statement_confined.
+
+(** A call that does not comply (what it would send on an unrestricted handle is not confined) returns an
+    error; a single-statement method sends nothing, a bulk method never commits. *)
+Theorem c12_noncomplying_call_rejected :
+  forall h t c o l,
+    op_wfb h t o = true -> In l (enforced_limits h) ->
+    ~ Forall (event_confined t l) (fst (run no_limits t c o)) ->
+    snd (run h t c o) <> Proceeds
+    /\ (single_statement o -> fst (run h t c o) = [])
+    /\ ~ In ECommit (fst (run h t c o)).
+Proof. exact c12_noncomplying_b. Qed.
+Print Assumptions c12_noncomplying_call_rejected.
+
+(** Batched fetches: for every set of concurrent callers and every way the Go scheduler groups the ones
+    that pass their check into invocations of the batch function, every combined statement is confined. *)
+Theorem c12_batched_statements_confined :
+  forall h t fs arrival l,
+    batched_wfb h t fs = true ->
+    arrival_consistent h t fs arrival = true -> In l (enforced_limits h) ->
+    Forall (event_confined t l) (fst (run_batched h t fs arrival)).
+Proof. exact c12_batched_confined_b. Qed.
+Print Assumptions c12_batched_statements_confined.
+
+(** A batched caller that does not comply is answered with an error and is not part of any batch. *)
+Theorem c12_batched_noncomplying_rejected :
+  forall h t fs arrival l i,
+    batched_wfb h t fs = true -> i < List.length fs ->
+    arrival_consistent h t fs arrival = true -> In l (enforced_limits h) ->
+    ~ Forall (event_confined t l) (fst (run no_limits t (mk_ctx false false) (OQuery (nth_filter fs i) None))) ->
+    nth i (snd (run_batched h t fs arrival)) Proceeds <> Proceeds /\ ~ In i (List.concat arrival).
+Proof. exact c12_batched_noncomplying_b. Qed.
+Print Assumptions c12_batched_noncomplying_rejected.
+
+(** Meaning of the syntactic predicate under SQL's three-valued semantics: a row that satisfies a WHERE
+    clause which pins column k to d has d in column k (NULL for a NULL limit value). *)
+Theorem c12_confined_where_selects_only_shard_rows :
+  forall w k d r, where_pins w k d -> eval_wclause w r = TT -> in_shard (cell r k) d.
+Proof. exact where_pins_sound. Qed.
+Print Assumptions c12_confined_where_selects_only_shard_rows.
+
+(** UPDATE: when the limit column belongs to the primary key, the WHERE clause itself is restricted
+    (otherwise the row is only required to carry the value: see the report). *)
+Theorem c12_update_where_restricted_on_pk_columns :
+  forall h t c r ev l k v,
+    run h t c (OUpdateRow r) = (ev, Proceeds) -> In l (enforced_limits h) -> In (k, v) l ->
+    In k (map fst (pk_cvs t r)) ->
+    exists d, write_value v d /\ In (k, d) (pk_cvs t r).
+Proof. exact update_where_pins_pk. Qed.
+Print Assumptions c12_update_where_restricted_on_pk_columns.
+
+(** Reads and writes agree on the column value a limit entry denotes, whenever a write can pass at all. *)
+Theorem c12_read_and_write_values_agree :
+  forall i v d,
+    write_value v d -> (i && is_zero v = false) ->
+    match d with DInt z => (- 2 ^ 63 <= z < 2 ^ 63)%Z | _ => True end ->
+    valuer i v = d.
+Proof. exact read_write_agree. Qed.
+Print Assumptions c12_read_and_write_values_agree.
+
+(** * The hypotheses are satisfiable by non-trivial states *)
+Definition ex_users : table :=
+  mk_table "users" true
+    [mk_col "id" true false (TyInt KI64 ""); mk_col "shard" false false (TyInt KI64 "");
+     mk_col "name" false false (TyStr ""); mk_col "nick" false false (TyPtr (TyStr ""))].
+Definition ex_handle : handle := mk_handle (Some [("shard", GInt KI64 "" 7)]) None false false.
+Definition ex_filter : filter := [("name", GStr "" "bob"); ("shard", GInt KI64 "" 7)].
+
+Example ex_wf : op_wfb ex_handle ex_users (OQuery ex_filter None) = true.
+Proof. reflexivity. Qed.
+
+Example ex_complying_query_proceeds :
+  run ex_handle ex_users (mk_ctx false false) (OQuery ex_filter None)
+  = ([EStmt (SSelect "users" ["id"; "shard"; "name"; "nick"]
+                     (WSimple [("shard", DInt 7); ("name", DStr "bob")]) None)], Proceeds).
+Proof. vm_compute. reflexivity. Qed.
+
+Example ex_text :
+  sql_text (SSelect "users" ["id"; "shard"; "name"; "nick"] (WSimple [("shard", DInt 7); ("name", DStr "bob")]) None)
+  = "SELECT id, shard, name, nick FROM users WHERE shard = ? AND name = ?".
+Proof. vm_compute. reflexivity. Qed.
+
+(** The same filter with int(7) instead of int64(7) is rejected (Go's != compares dynamic types). *)
+Example ex_other_go_type_rejected :
+  run ex_handle ex_users (mk_ctx false false) (OQuery [("name", GStr "" "bob"); ("shard", GInt KI "" 7)] None)
+  = ([], Rejected).
+Proof. vm_compute. reflexivity. Qed.
+
+Example ex_batched :
+  run_batched ex_handle ex_users
+    [ex_filter; [("shard", GInt KI64 "" 7)]; [("shard", GInt KI64 "" 8)]; [("shard", GInt KI64 "" 7); ("nick", GNil)]]
+    [[1; 0; 3]]
+  = ([EStmt (SSelect "users" ["id"; "shard"; "name"; "nick"]
+        (WBatch [(["name"; "shard"], [[DStr "bob"; DInt 7]]);
+                 (["nick"; "shard"], [[DNull; DInt 7]]);
+                 (["shard"], [[DInt 7]])]) None)],
+     [Proceeds; Proceeds; Rejected; Proceeds]).
+Proof. vm_compute. reflexivity. Qed.
+
+Example ex_batched_text :
+  batch_text [(["name"; "shard"], [[DStr "bob"; DInt 7]]); (["nick"; "shard"], [[DNull; DInt 7]]); (["shard"], [[DInt 7]])]
+  = "(name=? AND shard=?) OR (nick IS NULL AND shard=?) OR shard IN (?)".
+Proof. vm_compute. reflexivity. Qed.
+
+Example ex_bulk_insert_rolls_back :
+  run ex_handle ex_users (mk_ctx false false)
+      (OInsertRows [[GInt KI64 "" 0; GInt KI64 "" 7; GStr "" "a"; GNilPtr (TyStr "")];
+                    [GInt KI64 "" 0; GInt KI64 "" 8; GStr "" "b"; GNilPtr (TyStr "")]] 1)
+  = ([EBegin; EStmt (SInsert "users" ["shard"; "name"; "nick"] [[DInt 7; DStr "a"; DNull]]); ERollback], Rejected).
+Proof. vm_compute. reflexivity. Qed.
